@@ -1,6 +1,7 @@
 import PhysisModel.Driver.C06Case
 import PhysisModel.Spec.MdlEdit
 import PhysisModel.Model.MdlWrite
+import PhysisModel.Base.Mutate
 namespace Physis.Driver.C07
 open Physis Physis.Proto Physis.Mdl Physis.Spec.Mdl Physis.Driver.C06Case
 
@@ -266,6 +267,31 @@ def handle (line : String) : String :=
           (["corr", "redundant-copies"] ++ kfTags a) (some ans)
       | _, _ => answer input ans ["triv", whyOutside a]
     | _, _ => bad
+  | "mut" :: seed :: k :: "write" :: toks =>
+    -- the encoded file with `k` damaged bytes (Base/Mutate.lean) through parse → write → parse:
+    -- model of the code vs the code (no specification answer for a damaged file)
+    match parseModel toks, seed.toNat?, k.toNat? with
+    | some a, some seed, some k =>
+      let file := Mutate.mutate (encodeMdl a) seed.toUInt64 k (bias := 68 + 136 * (allMeshes a).length + 200)
+      -- the writer extends the buffer to the largest `offset + size` of the file header: a damaged
+      -- header field would make it (model and code alike) produce gigabytes — such files are skipped
+      let huge : Bool := match fromExisting file with
+        | .ok m0 =>
+          let fh := m0.fileHeader
+          let ends := [fh.vertexOffsets.a.toNat + fh.vertexBufferSize.a.toNat,
+            fh.vertexOffsets.b.toNat + fh.vertexBufferSize.b.toNat,
+            fh.vertexOffsets.c.toNat + fh.vertexBufferSize.c.toNat,
+            fh.indexOffsets.a.toNat + fh.indexBufferSize.a.toNat,
+            fh.indexOffsets.b.toNat + fh.indexBufferSize.b.toNat,
+            fh.indexOffsets.c.toNat + fh.indexBufferSize.c.toNat,
+            (m0.modelData.lods.map fun l => l.vertexDataOffset.toNat + l.vertexBufferSize.toNat).foldl max 0,
+            (m0.modelData.lods.map fun l => l.indexDataOffset.toNat + l.indexBufferSize.toNat).foldl max 0]
+          decide (ends.foldl max 0 > file.length + 65536)
+        | _ => false
+      if huge then answer "skip" "skip" ["triv", "mut-huge"] else
+      let (ans, _) := modelRun file []
+      answer ("edit " ++ Bytes.toHex file) ans ["corr", "mut"]
+    | _, _, _ => bad
   | "write" :: toks =>
     match parseModel toks with
     | none => bad
